@@ -1020,9 +1020,13 @@ class World:
         exp = cfgs.get('expected', {})
         name = it['name']
         found = {}
+        cw = {'struct': '#[serde(deny_unknown_fields,crate="::cosmwasm_schema::serde")]',
+              'enum': '#[serde(deny_unknown_fields,rename_all="snake_case",crate="::cosmwasm_schema::serde")]'}
         def note(where, attrs):
             for a in attrs:
                 if a['path'] == 'serde':
+                    if where == name and re.sub(r'\s+', '', a['text']) == cw.get(it['kind']):
+                        continue   # what `#[cw_serde]` itself puts on a type of this kind (cosmwasm-schema-derive 1.5)
                     found.setdefault(where, []).append(re.sub(r'\s+', ' ', a['text']))
         note(name, it['attrs'])
         if it['kind'] == 'struct':
@@ -1128,6 +1132,10 @@ class World:
                       f'    open spec fn obeys_from_spec() -> bool {{ true }}\n'
                       f'    open spec fn from_spec(e: {xty}) -> Self {{ {ename}::{variant}(e) }}\n}}\n')
                 return
+            if self._impl_like_derive(src, m, it):
+                # a hand-written PartialEq / Clone that is, field for field, what the derive generates: R1's meaning stands
+                self.counters['R1'] += 1
+                return
             self.uncontracted.append({'mod': modpath, 'name': it['name'], 'file': m['file'], 'kind': 'trait-impl'})
             # closed world: R1 gives extracted types the meaning of their *derived* PartialEq / Clone, and the shim gives
             # std traits their std meaning; a hand-written trait impl that is neither under contract nor listed `== skip`
@@ -1155,6 +1163,49 @@ class World:
         for mm in it['methods']:
             self._emit_fn(out, src, m, modpath, mm, f'{self_ty}::{mm["name"]}', reach, indent='    ')
         out.w('}\n')
+
+    def _impl_like_derive(self, src, m, it):
+        """True for `impl PartialEq for S { fn eq(&self, o: &Self) -> bool { self.a == o.a && self.b == o.b .. } }` naming every field of the
+        struct S (defined in the same file) exactly once, and for `impl Clone for S { fn clone(&self) -> Self { Self { a: self.a.clone(), .. } } }`
+        likewise - the derived meaning, written out"""
+        tr = re.sub(r'\s+', '', it.get('trait') or '')
+        sname = re.sub(r'\s+', '', it.get('self_ty') or '')
+        if tr not in ('PartialEq', 'Clone') or len(it['methods']) != 1 or it.get('types') or it.get('consts'):
+            return False
+        path = os.path.join(REPO, m['file'])
+        st = next((i for i in self.index[path]['items'] if i['kind'] == 'struct' and i['name'] == sname), None)
+        if st is None or not st['fields']['fields'] or any(not re.fullmatch(r'\w+', f['name']) or f['name'].isdigit() for f in st['fields']['fields']):
+            return False
+        fields = sorted(f['name'] for f in st['fields']['fields'])
+        mm = it['methods'][0]
+        body = re.sub(r'\s+', '', re.sub(rb'//[^\n]*', b'', src[mm['block'][0]:mm['block'][1]]).decode())
+        ins = mm['sig']['inputs']
+        if tr == 'PartialEq':
+            if mm['name'] != 'eq' or len(ins) != 2 or re.sub(r'\s+', '', ins[1].get('ty') or '') not in ('&Self', '&' + sname):
+                return False
+            o = ins[1]['name']
+            if not (body.startswith('{') and body.endswith('}')):
+                return False
+            terms = body[1:-1].split('&&')
+            got = []
+            for t in terms:
+                mt = re.fullmatch(r'self\.(\w+)==' + re.escape(o) + r'\.(\w+)', t) or re.fullmatch(re.escape(o) + r'\.(\w+)==self\.(\w+)', t)
+                if not mt or mt.group(1) != mt.group(2):
+                    return False
+                got.append(mt.group(1))
+            return sorted(got) == fields
+        if mm['name'] != 'clone' or len(ins) != 1:
+            return False
+        mb = re.fullmatch(r'\{(?:Self|' + re.escape(sname) + r')\{(.*?),?\}\}', body)
+        if not mb:
+            return False
+        got = []
+        for t in mb.group(1).split(','):
+            mt = re.fullmatch(r'(\w+):self\.(\w+)(?:\.clone\(\))?', t)
+            if not mt or mt.group(1) != mt.group(2):
+                return False
+            got.append(mt.group(1))
+        return sorted(got) == fields
 
     def _from_impl_like_derive(self, src, m, it):
         """(enum, variant, X) when `it` is `impl From<X> for Enum` whose only method is `fn from(p: X) -> Self { Enum::V(p) }` (or
